@@ -62,6 +62,30 @@ func expectedIndex(nonce uint32, chainID int, h int) int {
 	return int(r % (uint64(1) << uint(h)))
 }
 
+// cbHashOf is the coinbase hash of the value the object holds NOW: SHA-256d
+// (crypto/sha256) of its serialization, never BtcTx.Hash() itself, so that a
+// stale or cached hash inside the implementation cannot leak into the model's
+// input or into the oracle.
+func cbHashOf(tx *auxpow.BtcTx) common.Uint256 {
+	buf := new(bytes.Buffer)
+	if err := tx.Serialize(buf); err != nil {
+		panic(err)
+	}
+	var h common.Uint256
+	copy(h[:], sha256d(buf.Bytes()))
+	return h
+}
+
+func headerHashOf(bh *auxpow.BtcHeader) common.Uint256 {
+	buf := new(bytes.Buffer)
+	if err := bh.Serialize(buf); err != nil {
+		panic(err)
+	}
+	var h common.Uint256
+	copy(h[:], sha256d(buf.Bytes()))
+	return h
+}
+
 func countSub(s, sub []byte) int {
 	n := 0
 	for i := 0; i+len(sub) <= len(s); i++ {
@@ -74,7 +98,7 @@ func countSub(s, sub []byte) int {
 
 // statement of the property on an accepted proof, at byte granularity
 func commits(ap *auxpow.AuxPow, hash common.Uint256, chainID int) (ok bool, why string) {
-	cb := ap.ParCoinbaseTx.Hash()
+	cb := cbHashOf(&ap.ParCoinbaseTx)
 	if !bytes.Equal(merkleRoot(cb[:], ap.ParCoinBaseMerkle, ap.ParMerkleIndex), ap.ParBlockHeader.MerkleRoot[:]) {
 		return false, "parent coinbase not under the parent merkle root"
 	}
@@ -112,7 +136,7 @@ func coqHashes(hs []common.Uint256) string {
 }
 
 func coqAP(ap *auxpow.AuxPow) string {
-	cb := ap.ParCoinbaseTx.Hash()
+	cb := cbHashOf(&ap.ParCoinbaseTx)
 	has := len(ap.ParCoinbaseTx.TxIn) > 0
 	var script []byte
 	if has {
@@ -172,7 +196,7 @@ func withScript(s spec, script []byte, idx int) *auxpow.AuxPow {
 		ins = append(ins, &auxpow.BtcTxIn{SignatureScript: []byte{byte(k)}})
 	}
 	cb := auxpow.NewBtcTx(ins, []*auxpow.BtcTxOut{{Value: 5000000000, PkScript: []byte{0x51}}})
-	cbh := cb.Hash()
+	cbh := cbHashOf(cb)
 	var pr common.Uint256
 	copy(pr[:], merkleRoot(cbh[:], s.parBr, s.parIdx))
 	hdr := auxpow.BtcHeader{Version: 0x20000000, MerkleRoot: pr, Timestamp: 1600000000}
@@ -195,7 +219,7 @@ func main() {
 	run := lib.ParseArgs()
 	elaenv.InitLog(run.Out)
 	rng := lib.NewRng(run.Seed)
-	st := lib.NewStats("C10", "proofs from auxpow.GenerateAuxPow and constructed valid proofs (aux branch lengths 0..33, parent branch lengths 0..5, random nonce/chain id, 0..6 script prefix bytes, 0..5 suffix bytes, 1..2 coinbase inputs), then single-field mutations (block hash, aux branch element, aux index, branch length, nonce, size, chain id, marker byte, root byte, parent branch/index/root, coinbase script, no input, truncated tail), marker at every nibble offset 0..9, two markers (before/after/overlapping), root hex occurring early; GetExpectedIndex on boundary heights -1..33 and GetMerkleRoot on indexes incl. -1. nontrivial = the parent merkle check passed and a marker was found (the commitment logic ran); distinct by serialized proof+hash+chain id")
+	st := lib.NewStats("C10", "proofs from auxpow.GenerateAuxPow and constructed valid proofs (aux branch lengths 0..33, parent branch lengths 0..5, random nonce/chain id, 0..6 script prefix bytes, 0..5 suffix bytes, 1..2 coinbase inputs), then single-field mutations (block hash, aux branch element, aux index, branch length, nonce, size, chain id, marker byte, root byte, parent branch/index/root, coinbase script, no input, truncated tail), marker at every nibble offset 0..9, two markers (before/after/overlapping), root hex occurring early or apart from the marker; object reuse (check, then in-place change of each coinbase/header/branch field, check, restore, check; Deserialize of a forged and of another valid proof into the used AuxPow / BtcTx; GenerateAuxPow script retargeted) with the coinbase hash given to the model and the oracle always recomputed from the serialization; GetExpectedIndex on boundary heights -1..33 and GetMerkleRoot on indexes incl. -1. nontrivial = the parent merkle check passed and a marker was found (the commitment logic ran); distinct by serialized proof+hash+chain id")
 	sh := &lib.Shards{Dir: run.Out, Imports: "From ELA Require Import model.C10_AuxPow corr.C10_corr.", CaseType: "C10_corr.case",
 		Mismatch: "C10_corr.mismatches", Scope: "Z", PerShard: 25}
 	id := 0
@@ -220,7 +244,7 @@ func main() {
 		in := map[string]interface{}{"kind": kind, "hash": fmt.Sprintf("%x", hash[:]), "chain_id": chainID, "aux_index": ap.AuxMerkleIndex,
 			"aux_branch_len": len(ap.AuxMerkleBranch), "script": fmt.Sprintf("%x", script), "par_index": ap.ParMerkleIndex, "accepted": out}
 		st.LogCase(run.Out, i, in)
-		cb := ap.ParCoinbaseTx.Hash()
+		cb := cbHashOf(&ap.ParCoinbaseTx)
 		ran := bytes.Equal(merkleRoot(cb[:], ap.ParCoinBaseMerkle, ap.ParMerkleIndex), ap.ParBlockHeader.MerkleRoot[:]) &&
 			strings.Contains(fmt.Sprintf("%x", script), "fabe6d6d")
 		kk := kind
@@ -230,6 +254,13 @@ func main() {
 			kk += ":rejected"
 		}
 		st.Count(fmt.Sprintf("ck:%x:%x:%d", sha256d(buf.Bytes())[:8], hash[:8], chainID), ran, kk)
+		// hashed sub-objects: their Hash() must be the hash of what they hold now
+		if got, want := ap.ParCoinbaseTx.Hash(), cbHashOf(&ap.ParCoinbaseTx); got != want {
+			st.Fail("auxpow.BtcTx.Hash:not-hash-of-current-value", "ParCoinbaseTx.Hash() differs from SHA-256d of its serialization (stale after reuse of the object)", in)
+		}
+		if got, want := ap.ParBlockHeader.Hash(), headerHashOf(&ap.ParBlockHeader); got != want {
+			st.Fail("auxpow.BtcHeader.Hash:not-hash-of-current-value", "ParBlockHeader.Hash() differs from SHA-256d of its serialization (stale after reuse of the object)", in)
+		}
 		if out {
 			ok, why := commits(ap, hash, chainID)
 			if !ok {
@@ -261,7 +292,7 @@ func main() {
 		s := spec{hash: hash, chainID: auxpow.AuxPowChainID}
 		ap := withScript(s, script, 0)
 		acc := observe(ap, hash, auxpow.AuxPowChainID, "witness:odd-nibble-marker", false)
-		cbh := ap.ParCoinbaseTx.Hash()
+		cbh := cbHashOf(&ap.ParCoinbaseTx)
 		st.Extra["refuted_witness"] = map[string]interface{}{"script": nib, "hash": fmt.Sprintf("%x", hash[:]), "cb_hash": lib.CoqBytes(cbh[:]), "accepted": acc}
 	}
 
@@ -316,7 +347,7 @@ func main() {
 				sc := c.ParCoinbaseTx.TxIn[0].SignatureScript
 				k := len(s.prefix)
 				fixParent := func() { // the parent header does not commit to anything the check verifies beyond the merkle root
-					cbh := c.ParCoinbaseTx.Hash()
+					cbh := cbHashOf(&c.ParCoinbaseTx)
 					copy(c.ParBlockHeader.MerkleRoot[:], merkleRoot(cbh[:], c.ParCoinBaseMerkle, c.ParMerkleIndex))
 				}
 				switch m {
@@ -475,6 +506,117 @@ func main() {
 			s.prefix = rev(root)
 			observe(build(s), s.hash, s.chainID, "root-before-marker", false)
 		}
+	}
+
+	// ---------------------------------------------------------------- object reuse: check, change the SAME object, check again
+	// (the model is evaluated on the final value each time; a hash or verdict
+	// remembered inside the object from the earlier use would disagree)
+	for round := 0; round < run.N(3, 80); round++ {
+		h := rng.Intn(4)
+		s := spec{hash: randHash(rng), chainID: 1224, nonce: uint32(rng.U64()), prefix: rng.Bytes(rng.Intn(4)), suffix: rng.Bytes(1 + rng.Intn(4)), extraIns: rng.Intn(2)}
+		for k := 0; k < h; k++ {
+			s.branch = append(s.branch, randHash(rng))
+		}
+		np := rng.Intn(3)
+		for k := 0; k < np; k++ {
+			s.parBr = append(s.parBr, randHash(rng))
+		}
+		s.parIdx = rng.Intn(1 << uint(np))
+		ap := build(s)
+		if round%2 == 1 { // also as a decoded object
+			ap = clone(ap)
+		}
+		if !observe(ap, s.hash, s.chainID, "reuse:first-check", false) {
+			st.Fail("auxpow.Check:valid-rejected", "a proof satisfying the statement is rejected", map[string]interface{}{"height": h})
+		}
+		cb := &ap.ParCoinbaseTx
+		type edit struct {
+			name        string
+			do, undo    func()
+			stillCommit bool // the edit does not touch what the check reads (accept stays correct)
+		}
+		sc := cb.TxIn[0].SignatureScript
+		var savedRoot common.Uint256
+		edits := []edit{
+			{"coinbase.LockTime", func() { cb.LockTime++ }, func() { cb.LockTime-- }, false},
+			{"coinbase.Version", func() { cb.Version ^= 2 }, func() { cb.Version ^= 2 }, false},
+			{"coinbase.TxIn[0].Sequence", func() { cb.TxIn[0].Sequence ^= 0x80 }, func() { cb.TxIn[0].Sequence ^= 0x80 }, false},
+			{"coinbase.TxIn[0].PreviousOutPoint.Index", func() { cb.TxIn[0].PreviousOutPoint.Index-- }, func() { cb.TxIn[0].PreviousOutPoint.Index++ }, false},
+			{"coinbase.TxOut[0].Value", func() { cb.TxOut[0].Value++ }, func() { cb.TxOut[0].Value-- }, false},
+			{"coinbase.TxOut[0].PkScript", func() { cb.TxOut[0].PkScript[0] ^= 1 }, func() { cb.TxOut[0].PkScript[0] ^= 1 }, false},
+			{"coinbase.script-tail", func() { sc[len(sc)-1] ^= 0x10 }, func() { sc[len(sc)-1] ^= 0x10 }, false},
+			{"coinbase.script-root-byte", func() { sc[len(s.prefix)+4+7] ^= 0x01 }, func() { sc[len(s.prefix)+4+7] ^= 0x01 }, false},
+			{"coinbase.TxOut-appended", func() { cb.TxOut = append(cb.TxOut, &auxpow.BtcTxOut{Value: 1, PkScript: []byte{0x52}}) }, func() { cb.TxOut = cb.TxOut[:len(cb.TxOut)-1] }, false},
+			{"header.MerkleRoot", func() { savedRoot = ap.ParBlockHeader.MerkleRoot; ap.ParBlockHeader.MerkleRoot[5] ^= 0x20 }, func() { ap.ParBlockHeader.MerkleRoot = savedRoot }, false},
+			{"header.Nonce", func() { ap.ParBlockHeader.Nonce += 12345 }, func() { ap.ParBlockHeader.Nonce -= 12345 }, true},
+			{"header.Timestamp", func() { ap.ParBlockHeader.Timestamp++ }, func() { ap.ParBlockHeader.Timestamp-- }, true},
+			{"aux.Index", func() { ap.AuxMerkleIndex ^= 1 }, func() { ap.AuxMerkleIndex ^= 1 }, false},
+		}
+		if h > 0 {
+			edits = append(edits, edit{"aux.Branch[0]", func() { ap.AuxMerkleBranch[0][9] ^= 4 }, func() { ap.AuxMerkleBranch[0][9] ^= 4 }, false})
+		}
+		if np > 0 {
+			edits = append(edits, edit{"parent.Branch[0]", func() { ap.ParCoinBaseMerkle[0][1] ^= 8 }, func() { ap.ParCoinBaseMerkle[0][1] ^= 8 }, false})
+		}
+		for ei, e := range edits {
+			if !run.Thorough() && (ei+round)%2 == 1 && ei > 8 {
+				continue
+			}
+			e.do()
+			observe(ap, s.hash, s.chainID, "reuse:in-place:"+e.name, !e.stillCommit)
+			e.undo()
+			if !observe(ap, s.hash, s.chainID, "reuse:restored:"+e.name, false) {
+				st.Fail("auxpow.Check:valid-rejected", "a valid proof is rejected after a field was changed and restored on the same object", map[string]interface{}{"field": e.name})
+			}
+		}
+		// decode other proofs into the used object
+		s2 := spec{hash: randHash(rng), chainID: 1224, nonce: uint32(rng.U64()), prefix: rng.Bytes(rng.Intn(3)), suffix: rng.Bytes(2)}
+		for k := 0; k < rng.Intn(3); k++ {
+			s2.branch = append(s2.branch, randHash(rng))
+		}
+		other := build(s2)
+		forged := clone(other) // coinbase committing to block 2 under the parent header (merkle root) of proof 1
+		forged.ParBlockHeader = ap.ParBlockHeader
+		forged.ParCoinBaseMerkle = append([]common.Uint256{}, ap.ParCoinBaseMerkle...)
+		forged.ParMerkleIndex = ap.ParMerkleIndex
+		into := func(dst, src *auxpow.AuxPow) {
+			buf := new(bytes.Buffer)
+			if err := src.Serialize(buf); err != nil {
+				panic(err)
+			}
+			if err := dst.Deserialize(bytes.NewReader(buf.Bytes())); err != nil {
+				panic(err)
+			}
+		}
+		into(ap, forged)
+		observe(ap, s2.hash, s2.chainID, "reuse:redecoded:forged(coinbase of block 2, parent header of block 1)", true)
+		observe(ap, s.hash, s.chainID, "reuse:redecoded:forged:first-block", true)
+		into(ap, other)
+		if !observe(ap, s2.hash, s2.chainID, "reuse:redecoded:valid-other", false) {
+			st.Fail("auxpow.Check:valid-rejected", "a valid proof decoded into a previously used AuxPow is rejected", map[string]interface{}{"height": len(s2.branch)})
+		}
+		observe(ap, s.hash, s.chainID, "reuse:redecoded:valid-other:first-block", true)
+		// only the coinbase re-decoded into the used BtcTx
+		{
+			buf := new(bytes.Buffer)
+			forged.ParCoinbaseTx.Serialize(buf)
+			hdrKeep := ap.ParBlockHeader
+			first := build(s)
+			first.Check(&s.hash, s.chainID)
+			if err := first.ParCoinbaseTx.Deserialize(bytes.NewReader(buf.Bytes())); err != nil {
+				panic(err)
+			}
+			_ = hdrKeep
+			observe(first, s2.hash, s2.chainID, "reuse:coinbase-redecoded-in-place", true)
+		}
+	}
+	// GenerateAuxPow hashes the coinbase when it builds the header: retarget its script to another block
+	for k := 0; k < run.N(3, 100); k++ {
+		h1, h2 := randHash(rng), randHash(rng)
+		ap := auxpow.GenerateAuxPow(h1)
+		copy(ap.ParCoinbaseTx.TxIn[0].SignatureScript[4:36], h2[:])
+		observe(ap, h2, auxpow.AuxPowChainID, "reuse:generated:script-retargeted", true)
+		observe(ap, h1, auxpow.AuxPowChainID, "reuse:generated:script-retargeted:first-block", true)
 	}
 
 	// ---------------------------------------------------------------- GetExpectedIndex / GetMerkleRoot
